@@ -243,6 +243,12 @@ impl Database {
         let recovery_available = memory_budget.available(Pool::Recovery);
 
         let estimate = Self::estimate_recovery_cost(&wal_dir)?;
+        #[cfg(kahflane_turdb_verif)]
+        let recovery_available = if crate::verif::degraded_open_forced() {
+            0
+        } else {
+            recovery_available
+        };
 
         let (frames_recovered, mode) = if estimate.frame_count > 0 {
 
@@ -739,9 +745,15 @@ impl Database {
 
         file.seek(SeekFrom::Start(0))
             .wrap_err("failed to seek to start of metadata file")?;
+        #[cfg(kahflane_turdb_verif)]
+        crate::verif::point("meta_write");
         file.write_all(&page)
             .wrap_err("failed to write metadata header")?;
+        #[cfg(kahflane_turdb_verif)]
+        crate::verif::point("meta_sync");
         file.sync_all().wrap_err("failed to sync metadata file")?;
+        #[cfg(kahflane_turdb_verif)]
+        crate::verif::synced(&file);
 
         Ok(())
     }
